@@ -14,7 +14,9 @@ Local Open Scope N_scope.
 
 (* ------------------------------------------------------------------ Optional: programs *)
 Inductive src :=
-| SVal                       (* the value / constructor-argument parameter (forwarded) *)
+| SVal                       (* the value / argument parameter used as a plain (l)value: the payload is copied from it *)
+| SValFwd                    (* std::forward<U>(param): moved from iff the caller's argument was an rvalue *)
+| SValMove                   (* std::move(param): moved from whenever it is not const, also when the caller passed an LVALUE *)
 | SOther (mv : bool)         (* other.value(), mv: wrapped in std::move *)
 | SThis.                     (* value() of the receiver *)
 Inductive cnd := CHas (c : cell) | CNotHas (c : cell).
@@ -47,11 +49,28 @@ Definition bindO {A B} (m : MO A) (k : A -> MO B) : MO B :=
            | Some (RErr e f') => Some (RErr e f')
            | None => None
            end.
-Definition eval_src (z : bool) (arg : M N) (s : src) : M N :=
+(* the argument of a value operation: whether it may be moved from at all (not const), whether the caller passed
+   an rvalue, and how it is read (copied: false / moved from: true) *)
+Record varg := { va_movable : bool; va_rvalue : bool; va_read : bool -> M N }.
+Definition vval (v : N) : varg := {| va_movable := false; va_rvalue := false; va_read := fun _ => ret v |}.
+Definition vderef (z rv : bool) : varg :=          (* *other / std::move( *other ) of a non-const wrapper *)
+  {| va_movable := true; va_rvalue := rv; va_read := fun m => read_value z Other m |}.
+Definition eval_src (z : bool) (arg : varg) (s : src) : M N :=
   match s with
-  | SVal => arg
+  | SVal => va_read arg false
+  | SValFwd => va_read arg (va_rvalue arg && va_movable arg)
+  | SValMove => va_read arg (va_movable arg)
   | SOther mv => read_value z Other mv
   | SThis => read_value z This false
+  end.
+(* the argument a member passes on when it calls emplace(s) / operator=(U&&)(s) *)
+Definition sub_arg (z : bool) (arg : varg) (s : src) : varg :=
+  match s with
+  | SVal => {| va_movable := va_movable arg; va_rvalue := false; va_read := va_read arg |}
+  | SValFwd => arg
+  | SValMove => {| va_movable := va_movable arg; va_rvalue := true; va_read := va_read arg |}
+  | SOther mv => {| va_movable := mv; va_rvalue := mv; va_read := fun m => read_value z Other m |}
+  | SThis => {| va_movable := true; va_rvalue := false; va_read := fun m => read_value z This m |}
   end.
 Definition eval_cnd (c : cnd) : M bool :=
   match c with
@@ -61,7 +80,7 @@ Definition eval_cnd (c : cnd) : M bool :=
 
 (* n: nesting + call depth still allowed (8 suffices for every member); None = unknown statement
    or depth exhausted *)
-Fixpoint interp (n : nat) (z : bool) (tbl : meth -> mfact) (arg : M N) (p : list mop) {struct n} : MO unit :=
+Fixpoint interp (n : nat) (z : bool) (tbl : meth -> mfact) (arg : varg) (p : list mop) {struct n} : MO unit :=
   match n with
   | O => fun _ => None
   | S n' =>
@@ -71,8 +90,8 @@ Fixpoint interp (n : nat) (z : bool) (tbl : meth -> mfact) (arg : M N) (p : list
                              (fun b => if b then interp n' z tbl arg t else interp n' z tbl arg e)
         | OReset => interp n' z tbl arg (mf_prog (tbl MReset))
         | ODcsin => interp n' z tbl arg (mf_prog (tbl MDcsin))
-        | OEmplace s => interp n' z tbl (eval_src z arg s) (mf_prog (tbl MEmplace))
-        | OAssignValue s => interp n' z tbl (eval_src z arg s) (mf_prog (tbl MAssignValue))
+        | OEmplace s => interp n' z tbl (sub_arg z arg s) (mf_prog (tbl MEmplace))
+        | OAssignValue s => interp n' z tbl (sub_arg z arg s) (mf_prog (tbl MAssignValue))
         | ONew s => lift (v <- eval_src z arg s ;; placement_new This v false)
         | ONewDefault => lift (placement_new This 0 true)
         | ODtor => lift (dtor_call This)
@@ -86,7 +105,7 @@ Fixpoint interp (n : nat) (z : bool) (tbl : meth -> mfact) (arg : M N) (p : list
          | o :: p' => bindO (op o) (fun _ => go p')
          end) p
   end.
-Definition run_member (z : bool) (tbl : meth -> mfact) (m : meth) (arg : M N) : MO unit :=
+Definition run_member (z : bool) (tbl : meth -> mfact) (m : meth) (arg : varg) : MO unit :=
   interp 8 z tbl arg (mf_prog (tbl m)).
 
 Definition assign_body (mv : bool) : list mop :=
@@ -99,14 +118,14 @@ Definition model_table (m : meth) : mfact :=
       {| mf_fresh := true; mf_prog := [OIf (CHas Other) [OAssignValue (SOther false)] []] |}
   | MCtorMove | MCtorConvMove =>
       {| mf_fresh := true; mf_prog := [OIf (CHas Other) [OEmplace (SOther true)] []] |}
-  | MMakeOptional => {| mf_fresh := true; mf_prog := [OEmplace SVal] |}
+  | MMakeOptional => {| mf_fresh := true; mf_prog := [OEmplace SValFwd] |}        (* ret.emplace(std::forward<Args>(args)...) *)
   | MDtor => {| mf_fresh := false; mf_prog := [OReset] |}
   | MAssignCopy => {| mf_fresh := false; mf_prog := assign_body false |}
   | MAssignMove => {| mf_fresh := false; mf_prog := assign_body true |}
   | MAssignConvCopy => {| mf_fresh := false; mf_prog := assign_body false |}
   | MAssignConvMove => {| mf_fresh := false; mf_prog := assign_body false |}   (* copies the payload *)
   | MAssignValue => {| mf_fresh := false; mf_prog := [ODcsin; OAssign SVal; OFlag true] |}
-  | MEmplace => {| mf_fresh := false; mf_prog := [OReset; ONew SVal; OFlag true] |}
+  | MEmplace => {| mf_fresh := false; mf_prog := [OReset; ONew SValFwd; OFlag true] |}   (* new (storage) T(std::forward<Args>(args)...) *)
   | MReset => {| mf_fresh := false; mf_prog := [OIf (CHas This) [ODtor] []; OFlag false] |}
   | MDcsin => {| mf_fresh := false; mf_prog := [OIf (CNotHas This) [ONewDefault] []] |}
   end.
